@@ -156,6 +156,17 @@ def run_case(case):
                 stop = start + span
                 g = LinspaceGrid(start=start, stop=stop, n_points=n)
                 ref = np.linspace(start, stop, n)
+            # process history: the twin of the OTHER kind with the same (start, stop, n_points) is
+            # materialised first (anything memoised by the specification without the kind collides)
+            try:
+                if log:
+                    LinspaceGrid(start=start, stop=stop, n_points=n).to_jax()
+                    cnt["twins_of_other_kind_materialised_first"] = cnt.get("twins_of_other_kind_materialised_first", 0) + 1
+                elif start > 0:
+                    LogspaceGrid(start=start, stop=stop, n_points=n).to_jax()
+                    cnt["twins_of_other_kind_materialised_first"] = cnt.get("twins_of_other_kind_materialised_first", 0) + 1
+            except Exception:  # noqa: BLE001 - the twin is not under test
+                pass
             arr = np.asarray(g.to_jax(), dtype=float)
             cnt["grids"] = cnt.get("grids", 0) + 1
             # conditioning: a value carries a rounding error eps*|v|, i.e. eps*|v|/step in
